@@ -46,6 +46,7 @@ func __ghostset(name string, f func() int)               {}
 func __lastsent[T any](ch chan T) (r T)                  { return }
 func __sentcount[T any](ch chan T) int                   { return 0 }
 func __assert(label string, f func() bool)               {}
+func __mapcontent(m any) any                             { return m }
 func __dynpreserves(locs ...any)                         {}
 func __forallkeys[K comparable, V any](m map[K]V, f func(K) bool) bool { return true }
 func __haskey[K comparable, V any](m map[K]V, k K) bool  { _, ok := m[k]; return ok }
@@ -344,7 +345,7 @@ func buildOverlay(pkgDir string) (*OverlayResult, error) {
 			if c.HasMod {
 				var locs []string
 				for _, m := range c.Modifies {
-					if strings.HasPrefix(m, "elems(") {
+					if strings.HasPrefix(m, "elems(") || strings.HasPrefix(m, "mapcontent(") {
 						locs = append(locs, "__"+m)
 					} else if strings.HasPrefix(m, "heap(") {
 						// heap(T): every cell of type T
